@@ -795,7 +795,7 @@ impl Prop for P {
             },
             Tier::Thorough => Plan {
                 workers: 16,
-                cases_per_worker: 150000,
+                cases_per_worker: 400000,
                 timeout_s: 14400,
                 max_shrink_iters: 2000,
             },
